@@ -79,7 +79,13 @@ pub use bucket::NodeStatus;
 pub use entry::*;
 use rand::RngExt;
 use smallvec::SmallVec;
+#[cfg(not(libp2p_verif))]
 use web_time::Instant;
+
+#[cfg(libp2p_verif)]
+pub(crate) mod verif;
+#[cfg(libp2p_verif)]
+use self::verif::Instant;
 
 /// Maximum number of k-buckets.
 const NUM_BUCKETS: usize = 256;
